@@ -1,14 +1,19 @@
 """Configuration of ./check C01 (see cfg/README)."""
 
 PROP = {'drive': ['Font'],
- 'modules': ['SfntV.Props.C01'],
+ 'modules': ['SfntV.Props.C01', 'SfntV.Props.C01Codecs'],
  'required_theorems': ['C01_write_accepted',
                        'C01_read_write',
                        'C01_env_irrelevant',
                        'C01_derive_clock_free',
                        'C01_lossless',
-                       'C01_nf_idem_partial',
+                       'C01_nf_idem',
                        'C01_fixed_point_partial',
+                       'C01_fixed_point_complete_files',
+                       'C01_codec_assumptions_discharged',
+                       'C01_head_codec',
+                       'C01_os2_codec',
+                       'C01_post_codec',
                        'C01_fixed_point_full_false',
                        'C01_empty_glyf_rejected',
                        'C01_version_round_idem',
@@ -26,22 +31,20 @@ PROP = {'drive': ['Font'],
              'tokens in the model: their survival is checked on the real code only (token = hash of the '
              're-encoded data in streams font.meta/font.merge, byte equality of generation 2 and 3 in font.fixed) '
              'and is the subject of C08/C09/C11/C13.',
-             'C01_fixed_point_partial excludes (structure Stable): (1) first-read fonts whose Subfamily() contains '
-             'the weight word "Bold" while IsBold is false (weight 650..749, family name without "Bold") - known '
-             'finding C01-bold-word, negation proved as C01_fixed_point_full_false; (2) files without post table '
-             'whose CFF underline metrics are fractional, files without hmtx whose CFF widths are fractional, '
-             'TrueType files without hhea/hmtx (widths nil become zeros) - genuine non-fixed-points of degenerate '
-             'files, replayed as known findings; (3) usWidthClass > 9 - a limitation of the proof only (string '
-             'lemmas about Subfamily() are finite case analyses), those files are inside the D stream.',
-             'C01_nf_idem is proved for usWidthClass <= 9 (C01_nf_idem_partial; C01_nf_idem_full kept as a Prop).',
+             'C01_fixed_point_partial holds for every accepted, decoder-produced table set that is in none of the '
+             'open finding classes (structure Stable, one clause per finding): C01-bold-word (Subfamily() says "Bold" '
+             'while IsBold is clear: weight 650..749, family name without "Bold"; negation proved as '
+             'C01_fixed_point_full_false), C01-no-post-underline (no post table and fractional CFF underline metrics), '
+             'C01-no-hmtx-widths / C01-no-hmtx-cff-widths (no usable hmtx). C01_fixed_point_complete_files: a file with '
+             'post and hmtx tables can only fail the first. Repairs for C01-empty-glyf, C01-no-hmtx-widths and '
+             'C01-no-post-underline are proposed in /verif/patches/C01 (not applied; the model documents the repaired '
+             'lines behind REPAIR comments).',
              'C01_read_write needs InDomain: one width per glyph, version < 2^32, and a TrueType font must have a '
              'non-blank glyph - otherwise Write emits a zero-length glyf table that Read rejects (known finding '
              'C01-empty-glyf, witness theorem C01_empty_glyf_rejected).',
-             'Present-but-empty layout tables: an Info without scripts, features and lookups (recipe e0) survives and '
-             'is compared by presence and by number of scripts/features/lookups in font.meta/font.nf; shapes the gtab '
-             'codec itself reduces to that (nil script map, a script without features, a feature without lookups, an '
-             'unreachable lookup: gtab.Read returns an empty Info when the script or lookup list offset is 0) are C08 '
-             'normal forms and take part only in the D streams font.fixed/font.twice.',
+             'Present-but-empty layout tables (no scripts/features/lookups, a script without features, a feature '
+             'without lookups, an unreachable lookup, nil script map) survive Write/Read since the gtab fix d444265 and '
+             'take part in every stream; they are compared by presence and by number of scripts/features/lookups.',
              'Byte-level clauses (Write twice gives the same bytes; generation 2 = generation 3 byte for byte) are '
              'checked by the D stream font.fixed on the real code, not proved: the model has no bytes. Map-order '
              'independence of the encoders is C03/C08/C09/C14.',
@@ -59,8 +62,11 @@ PROP = {'drive': ['Font'],
                            '`^(?:Version )?(\\d+\\.?\\d+)` and the PostScript-name class are re-implemented',
                            'language.Matcher in name.Tables.Choose is not modelled: foreign name tables carry one '
                            'Windows en-US and/or one Mac en table'],
- 'assumptions': ['codec round trip of every table is the identity on the decoded records apart from the '
-                 'normalisations listed (the other properties prove this per table)',
+ 'assumptions': ['codec round trip = identity apart from the listed normalisations is now CITED for head, OS/2, post '
+                 'header, maxp, name strings, cmap and glyf/loca (C01_codec_assumptions_discharged instantiates the '
+                 'abstract codec with the concrete codecs of C12/C14/C09/C11 on their domains); it remains an '
+                 'assumption for hhea/hmtx (C12 models the caret slope as an integer pair, the font model as an '
+                 'oracle), the CFF table (C13: DICT reals are decimal) and GDEF/GSUB/GPOS (C08: opaque tokens here)',
                  'Go map iteration order does not influence the records (sorted by the encoders: C03/C08/C09/C14)',
                  'amd64 semantics of out-of-range float->integer conversions']}
 
